@@ -87,7 +87,10 @@ def _case(draw, tier):
             # a leaf that raises (errors collected): the limit must not change which siblings run or what is returned
             "fail_leaf": draw(st.integers(0, 4)) if prob(draw, 0.25) else None,
             # the step budget the unlimited run just manages with must be enough for the limited run as well
-            "tight_iterations": prob(draw, 0.3)}
+            "tight_iterations": prob(draw, 0.3),
+            # leaves are cacheable, the runner carries a cache and the mapped items REPEAT (concurrent duplicates: some miss first and
+            # hit after waiting for a slot): the limit holds and nothing hangs
+            "cached_dupes": prob(draw, 0.25)}
 
 
 def _leaves(nodes):
@@ -145,9 +148,18 @@ def check_case(case, ev):
     method = "run"
     mvals = dict(vals)
     kw = {}
+    cached = bool(case.get("cached_dupes")) and not case.get("pre") and case.get("fail_leaf") is None
+    if cached:
+        def _cache_all(ns):
+            return [({**n, "graph": {**n["graph"], "nodes": _cache_all(n["graph"]["nodes"])}} if n["k"] == "graph" else ({**n, "cache": True} if n["k"] == "func" else n)) for n in ns]
+        nodes = _cache_all(nodes)
+        if fan:
+            vals["item"] = [("it", i % 2) for i in range(fan)]
+        mvals = dict(vals)
+        labels.add("cacheable_leaves_with_repeated_items")
     if case["via_map"]:
         method = "map"
-        mvals["x"] = [("x", i) for i in range(case["nitems"])]
+        mvals["x"] = [("x", i % 2 if cached else i) for i in range(case["nitems"])]
         kw = {"map_over": "x"}
         width *= case["nitems"]
         depth += 1
@@ -206,6 +218,10 @@ def check_case(case, ev):
     ctx = Ctx(compact=True)
     g = make_graph(ctx, {"nodes": nodes}, "async")
     the_runner = None
+    if cached:
+        from hypergraph.cache import InMemoryCache
+
+        the_runner = AsyncRunner(cache=InMemoryCache())
     if case.get("pre") == "earlier_loop":
         # the same runner object has already served a bounded map with the same limit in an EARLIER event loop (contended:
         # more items than slots); nothing bound to that loop may be reused
@@ -283,7 +299,7 @@ def check_case(case, ev):
     if out.status == "raised":
         raise Violation("c15.raised", f"[{tag}] limited run raised {type(out.error).__name__}: {str(out.error)[:200]}")
     got = [(r.status.value, r.values) for r in out.result] if method == "map" else (out.status, out.values)
-    if got == want and not case.get("pre") and sorted(map(repr, ctx.log)) != want_calls:
+    if got == want and not case.get("pre") and not cached and sorted(map(repr, ctx.log)) != want_calls:
         raise Violation("c15.invocations_differ", f"[{tag}] node invocations of the limited run {sorted(map(repr, ctx.log))[:12]} differ from the unlimited run {want_calls[:12]}", via=method)
     if got != want:
         raise Violation("c15.result_differs", f"[{tag}] limited run {J(got)[:1] if False else str(got)[:600]} differs from the unlimited run {str(want)[:600]}", via=method)
